@@ -111,7 +111,9 @@ func (x *Exec) call(st *State, fr *Frame, v *ssa.Call) []*State {
 	callee := c.StaticCallee()
 	var args []Val
 	for _, a := range c.Args {
-		args = append(args, x.get(fr, a))
+		av := x.get(fr, a)
+		args = append(args, av)
+		x.checkEscape(st, fr, v, av)
 	}
 	if callee == nil {
 		return x.dynCall(st, fr, v, args)
@@ -207,8 +209,8 @@ func (x *Exec) modularCall(st *State, fr *Frame, v *ssa.Call, callee *ssa.Functi
 			vars[p.Name()] = args[i]
 			tys[p.Name()] = p.Type()
 			if i == 0 && callee.Signature.Recv() != nil {
-				vars["this"] = args[i]
-				tys["this"] = p.Type()
+				vars["this"] = x.makeIface(st, args[i], p.Type())
+				tys["this"] = x.ld.anyType()
 				if _, isPtr := p.Type().Underlying().(*types.Pointer); isPtr {
 					if pv, ok := args[i].(*PtrV); ok && pv.Kind == PObj {
 						x.emit(st, x.topKey+"/pre:recv-nonnil@"+site, "pre", Ne(pv.Ref, IntC(0)), nil)
@@ -226,8 +228,8 @@ func (x *Exec) modularCall(st *State, fr *Frame, v *ssa.Call, callee *ssa.Functi
 					vars[n] = thisV
 					tys[n] = v.Common().Value.Type()
 				} else if callee != nil && len(args) > 0 {
-					vars[n] = args[0]
-					tys[n] = callee.Params[0].Type()
+					vars[n] = x.makeIface(st, args[0], callee.Params[0].Type())
+					tys[n] = x.ld.anyType()
 				}
 				continue
 			}
@@ -565,8 +567,19 @@ func (x *Exec) havocModText(st *State, fr *Frame, calleeKey, item string) {
 		}
 	}
 	if strings.HasPrefix(item, "contents(") {
-		// contents(e): havoc all maps / slices (by type is not known here): conservative
-		st.epoch++
+		// contents(e): havoc the maps / slices of e's static type
+		inner := strings.TrimSuffix(strings.TrimPrefix(item, "contents("), ")")
+		if t := x.staticTypeOf(f, inner); t != nil {
+			switch u := t.Underlying().(type) {
+			case *types.Map:
+				x.havocItem(st, ModItem{Kind: "anymap", MapT: t})
+				return
+			case *types.Slice:
+				x.havocItem(st, ModItem{Kind: "anyslice", ElemT: u.Elem()})
+				return
+			}
+		}
+		st.events = append(st.events, "MD:", "MV:", "E:")
 		for k, a := range st.heap {
 			if strings.HasPrefix(k, "MD:") || strings.HasPrefix(k, "MV:") || strings.HasPrefix(k, "E:") {
 				st.heap[k] = Fresh("Hl!"+k, a.Sort)
@@ -855,10 +868,12 @@ func (x *Exec) builtinIfaceCall(st *State, fr *Frame, v *ssa.Call, recv *IfaceV,
 		fr.regs[v] = n
 		return
 	case "reflect.Type.Field":
-		x.stdlibUsed[name+" (requires 0 <= i < NumField)"]++
+		x.stdlibUsed[name+" (requires 0 <= i < NumField; IsExported of the result is the exported-ness of field i)"]++
 		i := x.scalar(args[0])
 		x.emit(st, x.topKey+"/pre:reflect.Type.Field.range@"+site, "pre", And(Ge(i, IntC(0)), Lt(i, UF("rtype.numfield", SInt, recv.Ref))), nil)
-		fr.regs[v] = x.freshVal(st, v.Type(), "sf")
+		sf := x.freshVal(st, v.Type(), "sf")
+		fr.regs[v] = sf
+		st.assumeDef(Eq(UF("sfield.exported", SBool, x.scalar(sf)), UF("rfield.exported", SBool, UF("rtype.tag", SInt, recv.Ref), i)))
 		return
 	}
 	x.havocCall(st, fr, v, "invoke "+name, site)
@@ -977,4 +992,32 @@ func lexLess(a, b []*T) *T {
 		alts = append(alts, And(conj...))
 	}
 	return Or(alts...)
+}
+
+// staticTypeOf resolves "param.field.field" against a function's signature.
+func (x *Exec) staticTypeOf(f *ssa.Function, path string) types.Type {
+	if f == nil {
+		return nil
+	}
+	segs := strings.Split(path, ".")
+	var t types.Type
+	for _, p := range f.Params {
+		if p.Name() == segs[0] {
+			t = p.Type()
+		}
+	}
+	if t == nil {
+		return nil
+	}
+	for _, sg := range segs[1:] {
+		if pt, ok := t.Underlying().(*types.Pointer); ok {
+			t = pt.Elem()
+		}
+		ft := fieldType(t, sg)
+		if ft == nil {
+			return nil
+		}
+		t = ft
+	}
+	return t
 }
